@@ -486,6 +486,7 @@ func (u *unitCtx) blockItem(it Item) {
 			outs = append(outs, fv.name)
 		}
 	}
+	params = append(params, c.hidden...) // hidden tails of the slices whose capacity the run looks at ("Capacity")
 	// locals declared in the run and still in scope at its end (declared at the top level of the run)
 	var locals []string
 	for _, s := range run {
@@ -632,6 +633,7 @@ func (u *unitCtx) condItem(it Item) {
 	for _, k := range keys {
 		params = append(params, fmt.Sprintf("(%s : %s)", c.flats[k].name, u.leanType(fd, c.flats[k].typ)))
 	}
+	params = append(params, c.hidden...)
 	var b strings.Builder
 	fmt.Fprintf(&b, "/-- Go (%s, inside `%s`): the condition `if %s` -/\n", relFile(u, fd), it.Func,
 		strings.ReplaceAll(exprText(u.l.fset, cond), "-/", "- /"))
